@@ -142,6 +142,8 @@ type Exec struct {
 	inlineDepth int
 	ghostExec bool
 	bodyHash string
+	selHasDone *bool
+	unitBody ast.Node
 	entryState *State
 	loopPaths map[ast.Stmt]string
 }
@@ -420,18 +422,18 @@ func (ex *Exec) fieldOfVal(v *Val, f *types.Var) *Term {
 // ---------------------------------------------------------------------
 // Strings
 
-func (ex *Exec) strEmpty() *Term { return ex.D.konst("str.empty", SStr) }
+func (ex *Exec) strEmpty() *Term { return ex.D.konst("st.empty", SStr) }
 
-func (ex *Exec) strLen(s *Term) *Term { return ex.D.app("str.len", SInt, s) }
-func (ex *Exec) strAt(s, i *Term) *Term { return ex.D.app("str.at", SByte, s, i) }
+func (ex *Exec) strLen(s *Term) *Term { return ex.D.app("st.len", SInt, s) }
+func (ex *Exec) strAt(s, i *Term) *Term { return ex.D.app("st.at", SByte, s, i) }
 func (ex *Exec) strCat(a, b *Term) *Term {
-	if a.Op == "str.empty" {
+	if a.Op == "st.empty" {
 		return b
 	}
-	if b.Op == "str.empty" {
+	if b.Op == "st.empty" {
 		return a
 	}
-	return ex.D.app("str.cat", SStr, a, b)
+	return ex.D.app("st.cat", SStr, a, b)
 }
 
 func (ex *Exec) strLit(s string) *Term {
@@ -450,15 +452,15 @@ func (ex *Exec) strLit(s string) *Term {
 // stringAxioms returns the facts about literals and string functions.
 func (ex *Exec) stringAxioms() []*Term {
 	var out []*Term
-	if _, ok := ex.D.byName["str.len"]; ok || len(ex.strLits) > 0 {
+	if _, ok := ex.D.byName["st.len"]; ok || len(ex.strLits) > 0 {
 		s := mk("s?", SStr)
 		out = append(out, forall([]*Term{s}, ge(ex.strLen(s), intLit(0)), []*Term{ex.strLen(s)}))
 		out = append(out, eq(ex.strLen(ex.strEmpty()), intLit(0)))
 		out = append(out, forall([]*Term{s}, implies(eq(ex.strLen(s), intLit(0)), eq(s, ex.strEmpty())), []*Term{ex.strLen(s)}))
 	}
-	if _, ok := ex.D.byName["str.cat"]; ok {
+	if _, ok := ex.D.byName["st.cat"]; ok {
 		a, b := mk("a?", SStr), mk("b?", SStr)
-		cat := ex.D.app("str.cat", SStr, a, b)
+		cat := ex.D.app("st.cat", SStr, a, b)
 		out = append(out, forall([]*Term{a, b}, eq(ex.strLen(cat), add(ex.strLen(a), ex.strLen(b))), []*Term{cat}))
 		i := mk("i?", SInt)
 		out = append(out, forall([]*Term{a, b, i},
